@@ -28,6 +28,7 @@ package mem
 
 //@ func (*Service).AddAccount
 //@ requires s != nil && mapsWf(s) && wallet != nil && account != nil
+//@ ensures [cache] old(cacheWf(s)) && nameOf(walletOf(account)) == nameOf(wallet) && result == nil ==> cacheWf(s)
 //@ modifies s.rwWalletAccounts[nameOf(wallet)], mapall(s.rwPubKeyPaths), mapall(s.rwWalletAccounts[nameOf(wallet)])
 //@ ensures [added] result == nil ==> known(s, nameOf(wallet), nameOf(account)) && accountOf(s, nameOf(wallet), nameOf(account)) == account
 //@ ensures [keeps] forall w string, n string :: old(known(s, w, n)) ==> known(s, w, n)
@@ -40,8 +41,9 @@ package mem
 
 // ---- the fetcher interface read through this implementation (refinement "model" of the interface's functions) ----
 // object invariant of the cache (established by populateCaches, which is not verified; assumed at the interface):
-// cached accounts and wallets are non-nil and an account is cached under the wallet it belongs to
-//@ spec cacheWf(s *Service) bool = mapsWf(s) && (forall w string :: w in s.wallets ==> s.wallets[w] != nil) && (forall w string, n string :: w in s.walletAccounts && n in s.walletAccounts[w] ==> s.walletAccounts[w][n] != nil && w in s.wallets && walletOf(s.walletAccounts[w][n]) == s.wallets[w]) && (forall w string, n string :: w in s.rwWalletAccounts && n in s.rwWalletAccounts[w] ==> s.rwWalletAccounts[w][n] != nil && w in s.wallets && walletOf(s.rwWalletAccounts[w][n]) == s.wallets[w])
+// cached accounts and wallets are non-nil, a wallet is cached under its name and an account under the name of the wallet
+// it belongs to (names, not object identity: an account added after start-up belongs to a freshly opened wallet object)
+//@ spec cacheWf(s *Service) bool = mapsWf(s) && (forall w string :: w in s.wallets ==> s.wallets[w] != nil && nameOf(s.wallets[w]) == w) && (forall w string, n string :: w in s.walletAccounts && n in s.walletAccounts[w] ==> s.walletAccounts[w][n] != nil && w in s.wallets && nameOf(walletOf(s.walletAccounts[w][n])) == w) && (forall w string, n string :: w in s.rwWalletAccounts && n in s.rwWalletAccounts[w] ==> s.rwWalletAccounts[w][n] != nil && w in s.wallets && nameOf(walletOf(s.rwWalletAccounts[w][n])) == w)
 //@ spec accountByName(s *Service, w string, n string) any = if w in s.walletAccounts && n in s.walletAccounts[w] then s.walletAccounts[w][n] else s.rwWalletAccounts[w][n]
 //@ spec memFetchedByName(f any, path string) any = accountByName(unbox(f, "*Service"), wanW(path), wanA(path))
 //@ spec memWalletFound(f any, path string) bool = wanOk(path) && wanW(path) in unbox(f, "*Service").wallets
@@ -59,7 +61,7 @@ package mem
 //@ func (*Service).FetchAccount
 //@ flag noalloc
 //@ requires s != nil && cacheWf(s)
-//@ ensures [found] result2 == nil ==> wanOk(path) && known(s, wanW(path), wanA(path)) && result1 != nil && result1 == accountByName(s, wanW(path), wanA(path)) && result0 != nil && result0 == s.wallets[wanW(path)] && result0 == walletOf(result1)
+//@ ensures [found] result2 == nil ==> wanOk(path) && known(s, wanW(path), wanA(path)) && result1 != nil && result1 == accountByName(s, wanW(path), wanA(path)) && result0 != nil && result0 == s.wallets[wanW(path)] && nameOf(result0) == nameOf(walletOf(result1))
 
 // lookup by public key: the key's path in the start-up map, else in the overlay, then the lookup by name
 //@ spec pathOfKey(s *Service, k [48]byte) string = if k in s.pubKeyPaths then s.pubKeyPaths[k] else s.rwPubKeyPaths[k]
@@ -67,4 +69,4 @@ package mem
 //@ func (*Service).FetchAccountByKey
 //@ flag noalloc
 //@ requires s != nil && cacheWf(s)
-//@ ensures [found] result2 == nil ==> result1 != nil && result1 == accountByName(s, wanW(pathOfKey(s, key48(pubKey))), wanA(pathOfKey(s, key48(pubKey)))) && result0 != nil && result0 == walletOf(result1)
+//@ ensures [found] result2 == nil ==> result1 != nil && result1 == accountByName(s, wanW(pathOfKey(s, key48(pubKey))), wanA(pathOfKey(s, key48(pubKey)))) && result0 != nil && nameOf(result0) == nameOf(walletOf(result1))
